@@ -42,7 +42,11 @@ func (r recTracer) Finish(ctx context.Context, c *app.RequestContext) {
 			ordered = "DISORDER"
 		}
 	}
-	*r.log = append(*r.log, fmt.Sprintf("F:%s:%s:%s", c.Request.URI().Path(), strings.Join(present, ","), ordered))
+	errs := "-"
+	if st.Error() != nil {
+		errs = "err"
+	}
+	*r.log = append(*r.log, fmt.Sprintf("F:%s:%s:%s:%s", c.Request.URI().Path(), strings.Join(present, ","), ordered, errs))
 }
 
 // one request per history element
@@ -221,22 +225,27 @@ func init() {
 				fs = append(fs, Finding{Kind: "oracle", Unit: "c19.history", Class: cls, Impl: impl, Note: why})
 			}
 			// model: S / H:<path> / F:<path>:<stages> (stages compared at the detailed level only)
-			strip := func(l string) string {
+			// impl lines are F:<path>:<stages>:<ord>:<err>, model lines F:<path>:<stages>:<err>
+			strip := func(l string, errAt int) string {
 				if strings.HasPrefix(l, "F:") {
 					f := strings.Split(l, ":")
-					if level == stats.LevelDetailed && len(f) > 2 {
-						return "F:" + f[1] + ":" + f[2]
+					e := ""
+					if len(f) > errAt {
+						e = ":" + f[errAt]
 					}
-					return "F:" + f[1]
+					if level == stats.LevelDetailed && len(f) > 2 {
+						return "F:" + f[1] + ":" + f[2] + e
+					}
+					return "F:" + f[1] + e
 				}
 				return l
 			}
 			var proj, mproj []string
 			for _, l := range log {
-				proj = append(proj, strip(l))
+				proj = append(proj, strip(l, 4))
 			}
 			for _, l := range strings.Fields(t.M.Call("serve_trace", []byte(hist))) {
-				mproj = append(mproj, strip(l))
+				mproj = append(mproj, strip(l, 3))
 			}
 			if strings.Join(mproj, " ") != strings.Join(proj, " ") {
 				fs = append(fs, Finding{Kind: "corr", Unit: "c19.history", Class: "serve_trace", Impl: strings.Join(proj, " "), Model: strings.Join(mproj, " ")})
